@@ -310,6 +310,11 @@ class CFG:
             return True
         return dst not in self.reach(starts, avoid=through)
 
+    def edge_dominates(self, test: int, label: str, node: int) -> bool:
+        """Every path from entry to `node` takes the out-edge of `test` labelled `label`
+        (robust in loops, unlike 'not reachable from the other branch')."""
+        return node not in self.reach([self.entry], labels_block=[(test, label)])
+
     def find_path(self, dst: int, avoid: Iterable[int] = (), src: Optional[int] = None, src_label: Optional[str] = None) -> Optional[List[int]]:
         """Some path src -> dst avoiding `avoid` (for diagnostics)."""
         avoid = set(avoid)
